@@ -54,7 +54,35 @@ ADDED = {
  "C18-r4b": "law-depindep in the C18 stream (results changed in place; under the race detector)",
  "C19-r4a": "Package-List fields (arch=all, restricted binaries) in generated .dsc files",
  "C19-r4b": "build architectures with non-GNU ABIs and wildcard restrictions (linux-any, any-<cpu>, !linux-any)",
+ "C04-r5a": "kept copies of a field whose variable is unmarshalled into again (shorter, equal, longer)",
+ "C04-r5b": "pairs of names that collide under FNV-1 / FNV-1a / CRC-32 / Adler-32, in one field (core.CollidingPairs)",
+ "C06-r5a": "architecture lists edited in place between queries (entries replaced, negation flipped)",
+ "C06-r5b": "hostile process environment: Debian build variables and every upper-case identifier of the source set",
+ "C07-r5a": "comment lines at and beyond the buffer-boundary sizes",
+ "C07-r5b": "tolerant loops: reading on after an error, invariant on everything returned afterwards",
+ "C08-r5b": "empty and nil slices encoded between the real calls (fourth grouping)",
+ "C09-r5a": "defined types over the supported kinds in the probe structs (type Word string, []Word, type Tags []string)",
+ "C10-r5a": "control files reached through a symbolic link into another directory",
+ "C10-r5b": "sources that fail part-way with an error other than io.EOF",
+ "C12-r5a": "ownership of Sum results (kept across later writes; scribbled on)",
+ "C12-r5b": "io.WriteString and plain strings.Reader sources (the StringWriter / WriterTo paths), chunks above 1 KiB",
+ "C14-r5a": "zstd frames declaring every window size up to 2^27 (raw-block frames written by hand)",
+ "C15-r5a": "the archive behind an io.SectionReader whose declared length exceeds the data",
+ "C15-r5b": "tar entries claiming 2^33 .. 2^62 bytes through a correctly checksummed base-256 size field",
+ "C17-r5a": "long histories (1 - 33 MiB; 130 MiB thorough) through law-clcount",
+ "C18-r5b": "a named, non-UTC local time zone for the harness and dates that name their zone",
+ "C19-r5a": "hyphenated source names that are prefixes / suffixes / concatenations of each other",
+ "C20-r5a": "every generated file carries the same modification time; stale destination files of equal size",
+ "C20-r5b": "a real .dsc among the listed files which lists the .changes file itself",
 }
+FIRST5 = {}
+try:
+    for l in open("/verif/seeded/r5-first-run.txt"):
+        f = l.split()
+        if len(f) > 1:
+            FIRST5[f[0]] = f[1]
+except FileNotFoundError:
+    pass
 
 def row(m):
     name = m["name"]
@@ -62,6 +90,9 @@ def row(m):
     final = "witness" if m.get("detected_with_witness") else ("no-failing-input-found (crash wrapper / model mismatch)" if m.get("detected") else "MISSED")
     hist = m.get("history") or []
     first = hist[0] if hist else None
+    if name in FIRST5:
+        # round 5 was first run against the machinery as committed before the round (r5-first-run.txt)
+        first = {"detected": FIRST5[name] == "VIOLATION"}
     if first is None or first.get("detected"):
         fr = "detected on the first run"
         if first and name in ADDED:
@@ -93,6 +124,18 @@ First run: 14 detected, 26 missed - the hardest round.  The misses fall into a f
 itself spells out (source-literal dictionary), exact buffer-boundary sizes, letter-case variants of names, state kept
 between calls in pools / caches / finalizers (lifecycle laws), alternative entry points and reader kinds.
 
-""" + table("r4") + "\n"
+""" + table("r4") + """
+
+## Fifth round: written against a description of everything the bench already does
+
+Forty more.  The authors were told that the maintainers' bench already uses exact buffer-boundary sizes, tokens from
+the source's own literals, letter-case variants, reuse of receivers / buffers / handles / keyrings, double closes,
+several values open at once, results mutated and re-parsed, the *File entry points with relative paths and pipes,
+slow and EOF-with-data readers, io.Copy paths, concatenated compressed streams, several signatures in one armor,
+look-alike member names and the race detector, and were asked for what such a bench would still miss.  Run against
+the machinery as it was before the round (`r5-first-run.txt`): 20 detected, 20 missed.  After the extensions in the
+last column: 40 detected, 36 with a concrete failing input.
+
+""" + table("r5") + "\n"
 open("/verif/seeded/README.md", "w").write(readme)
 print("README written")
